@@ -328,4 +328,377 @@ theorem model_holds [Zero α] [DecidableEq α] (t : Table α) (hwf : t.WF) (ax :
     · rw [eqb_self]; rfl
     · rw [eqb_of_eq _ _ hvia.symm]; rfl
 
+/-! ## `remove_empty` and `head` -/
+
+theorem lookupBy_map {β γ : Type} (ids : List Id) (xs : List β) (f : β → γ) (id : Id) :
+    lookupBy ids (xs.map f) id = (lookupBy ids xs id).map f := by
+  induction ids generalizing xs with
+  | nil => cases xs <;> rfl
+  | cons a as ih =>
+    cases xs with
+    | nil => rfl
+    | cons x xs =>
+      by_cases he : a = id
+      · simp [lookupBy, he]
+      · simp only [List.map_cons, lookupBy, he, if_false]
+        exact ih xs
+
+/-- filtering an axis leaves every cell of a kept ID what it was -/
+theorem filterAxis_cell? (t : Table α) (mask : List Bool) (ax : Axis) (hn : (t.ids ax).Nodup) (o s : Id)
+    (hk : (match ax with | .obs => o | .samp => s) ∈ filterMask (t.ids ax) mask) :
+    (filterAxis t mask ax).cell? o s = t.cell? o s := by
+  cases ax with
+  | obs =>
+    have := filterAxis_vec? t mask .obs hn o hk
+    simp only [Table.vec?] at this
+    simp only [Table.cell?, this]
+    rfl
+  | samp =>
+    simp only [Table.cell?, Table.row?, filterAxis, lookupBy_map]
+    cases lookupBy t.obs t.rows o with
+    | none => rfl
+    | some r => exact lookupBy_filterMask t.samp r mask s hn hk
+
+theorem filterAxis_mdOf?_other (t : Table α) (mask : List Bool) (ax : Axis) (id : Id) :
+    (filterAxis t mask ax).mdOf? ax.other id = t.mdOf? ax.other id := by cases ax <;> rfl
+
+/-- `r` is `t` restricted to the observations `eo` and the samples `es` (cells and metadata by ID) -/
+structure BlockSpec (t r : Table α) (eo es : List Id) : Prop where
+  wf : r.WF
+  obs : r.obs = eo
+  samp : r.samp = es
+  cells : ∀ o ∈ eo, ∀ s ∈ es, r.cell? o s = t.cell? o s
+  omdPresent : r.omd.isSome = t.omd.isSome
+  smdPresent : r.smd.isSome = t.smd.isSome
+  omd : ∀ o ∈ eo, r.mdOf? .obs o = t.mdOf? .obs o
+  smd : ∀ s ∈ es, r.mdOf? .samp s = t.mdOf? .samp s
+  ttype : r.ttype = t.ttype
+
+theorem blockSpec_filterAxis (t : Table α) (hwf : t.WF) (ax : Axis) (hn : (t.ids ax).Nodup) (f : Id → Bool) :
+    BlockSpec t (filterAxis t ((t.ids ax).map f) ax)
+      (match ax with | .obs => t.obs.filter f | .samp => t.obs)
+      (match ax with | .obs => t.samp | .samp => t.samp.filter f) := by
+  have hs := filterAxis_meets_spec t hwf ax hn f
+  cases ax with
+  | obs =>
+    exact {
+      wf := hs.wf, obs := hs.ids, samp := rfl
+      cells := fun o ho s _ => filterAxis_cell? t _ .obs hn o s (by
+        show o ∈ filterMask t.obs (t.obs.map f); rw [filterMask_map_self]; exact ho)
+      omdPresent := hs.mdPresent, smdPresent := rfl
+      omd := fun o ho => hs.md o (by rw [hs.ids]; exact ho)
+      smd := fun _ _ => rfl
+      ttype := hs.ttype }
+  | samp =>
+    exact {
+      wf := hs.wf, obs := rfl, samp := hs.ids
+      cells := fun o _ s hs' => filterAxis_cell? t _ .samp hn o s (by
+        show s ∈ filterMask t.samp (t.samp.map f); rw [filterMask_map_self]; exact hs')
+      omdPresent := rfl, smdPresent := hs.mdPresent
+      omd := fun _ _ => rfl
+      smd := fun s hs' => hs.md s (by rw [hs.ids]; exact hs')
+      ttype := hs.ttype }
+
+theorem blockSpec_trans (t t1 r : Table α) (eo es es' : List Id) (h1 : BlockSpec t t1 eo es)
+    (h2 : BlockSpec t1 r eo es') (hsub : ∀ s ∈ es', s ∈ es) : BlockSpec t r eo es' where
+  wf := h2.wf
+  obs := h2.obs
+  samp := h2.samp
+  cells := fun o ho s hs => (h2.cells o ho s hs).trans (h1.cells o ho s (hsub s hs))
+  omdPresent := h2.omdPresent.trans h1.omdPresent
+  smdPresent := h2.smdPresent.trans h1.smdPresent
+  omd := fun o ho => (h2.omd o ho).trans (h1.omd o ho)
+  smd := fun s hs => (h2.smd s hs).trans (h1.smd s (hsub s hs))
+  ttype := h2.ttype.trans h1.ttype
+
+/-- the vectors of an axis, mapped positionally, are the IDs mapped through the by-ID lookup -/
+theorem vecs_map_byId [Zero α] {γ : Type} (t : Table α) (hwf : t.WF) (ax : Axis) (hn : (t.ids ax).Nodup)
+    (layout : CS α) (hl : LayoutOf t ax layout) (g : List α → γ) :
+    (vecs t ax).map g = (t.ids ax).map (fun id => g ((t.vec? ax id).getD [])) := by
+  have hvl := vecs_length t ax layout hl
+  apply List.ext_getElem
+  · simp [hvl]
+  · intro i h1 h2
+    have hi : i < (t.ids ax).length := by simpa using h2
+    simp only [List.getElem_map, vec?_getElem t hwf ax hn i hi (by omega), Option.getD_some]
+
+/-- does the vector of this ID hold a non-zero cell? (by-ID) -/
+def nonEmptyId [Zero α] [DecidableEq α] (t : Table α) (ax : Axis) (id : Id) : Bool :=
+  nonEmptyVec ((t.vec? ax id).getD [])
+
+/-- **removeEmpty_exact**: along one axis `remove_empty` is the specification `filterAxis` with the mask
+"this vector holds a non-zero value" — negative values and zero-sum vectors included. -/
+theorem removeEmpty_exact [Zero α] [DecidableEq α] (t : Table α) (hwf : t.WF) (ax : Axis)
+    (hn : (t.ids ax).Nodup) (layout : CS α) (hl : LayoutOf t ax layout) :
+    removeEmptyAxis t layout ax = .ok (filterAxis t ((t.ids ax).map (nonEmptyId t ax)) ax) := by
+  have hvl := vecs_length t ax layout hl
+  have hmask : (vecs t ax).map nonEmptyVec = (t.ids ax).map (nonEmptyId t ax) :=
+    vecs_map_byId t hwf ax hn layout hl nonEmptyVec
+  have hall : (filterMask (t.ids ax) ((vecs t ax).map nonEmptyVec)).all (fun k => (t.ids ax).contains k) = true := by
+    rw [List.all_eq_true]
+    intro id hid
+    simpa using mem_filterMask _ _ _ hid
+  have hself := contains_filterMask_self (t.ids ax) hn ((vecs t ax).map nonEmptyVec) (by simp [hvl])
+  rw [hmask] at hall hself
+  simp only [removeEmptyAxis, hmask, filter_ids_path t hwf ax hn layout hl, hall, if_true, Bool.xor_false, hself]
+
+/-- …so exactly the all-zero vectors are removed, everything else is intact -/
+theorem removeEmpty_removes_exactly_the_zero_vectors [Zero α] [DecidableEq α] (t : Table α) (hwf : t.WF)
+    (ax : Axis) (hn : (t.ids ax).Nodup) (layout : CS α) (hl : LayoutOf t ax layout) :
+    ∃ r, removeEmptyAxis t layout ax = .ok r ∧ FilterSpec t r ax (nonEmptyId t ax) ∧
+      ∀ id ∈ t.ids ax, (id ∈ r.ids ax ↔ ∃ v, t.vec? ax id = some v ∧ ∃ x ∈ v, x ≠ 0) := by
+  refine ⟨_, removeEmpty_exact t hwf ax hn layout hl, filterAxis_meets_spec t hwf ax hn _, ?_⟩
+  intro id hid
+  rw [(filterAxis_meets_spec t hwf ax hn (nonEmptyId t ax)).ids, List.mem_filter]
+  obtain ⟨i, hi, rfl⟩ := List.getElem_of_mem hid
+  have hv := vec?_getElem t hwf ax hn i hi (by rw [vecs_length t ax layout hl]; exact hi)
+  simp [nonEmptyId, nonEmptyVec, hv, List.getElem_mem]
+
+theorem nonEmptyIds_eq [Zero α] [DecidableEq α] (t : Table α) (hwf : t.WF) (ax : Axis) (hn : (t.ids ax).Nodup)
+    (layout : CS α) (hl : LayoutOf t ax layout) :
+    nonEmptyIds t ax = (t.ids ax).filter (nonEmptyId t ax) := by
+  unfold nonEmptyIds
+  apply List.filter_congr
+  intro id hid
+  obtain ⟨i, hi, rfl⟩ := List.getElem_of_mem hid
+  have hv := vec?_getElem t hwf ax hn i hi (by rw [vecs_length t ax layout hl]; exact hi)
+  simp [hv, nonEmptyId]
+
+open Codec in
+theorem blockVerdict_none [DecidableEq α] (t r : Table α) (eo es : List Id) (h : BlockSpec t r eo es)
+    (c1 c2 c3 c4 c5 c6 c7 : String) (b7 : Bool) (h7 : b7 = true) :
+    allV [
+      chk c1 r.wfb,
+      chk c2 (eqb r.obs eo),
+      chk c3 (eqb r.samp es),
+      chk c4 (eo.all (fun o => es.all (fun s => eqb (r.cell? o s) (t.cell? o s)))),
+      chk c5 (((eqb r.omd.isSome t.omd.isSome) && eo.all (fun o => eqb (r.mdOf? .obs o) (t.mdOf? .obs o))) &&
+              ((eqb r.smd.isSome t.smd.isSome) && es.all (fun s => eqb (r.mdOf? .samp s) (t.mdOf? .samp s)))),
+      chk c6 (eqb r.ttype t.ttype),
+      chk c7 b7] = none := by
+  apply allV_nil_of_all_none
+  intro v hv
+  simp only [List.mem_cons, List.not_mem_nil, or_false] at hv
+  rcases hv with rfl | rfl | rfl | rfl | rfl | rfl | rfl
+  rotate_left 6
+  · rw [h7]; rfl
+  · rw [wfb_of_wf r h.wf]; rfl
+  · rw [eqb_of_eq _ _ h.obs]; rfl
+  · rw [eqb_of_eq _ _ h.samp]; rfl
+  · have : eo.all (fun o => es.all (fun s => eqb (r.cell? o s) (t.cell? o s))) = true := by
+      rw [List.all_eq_true]; intro o ho
+      rw [List.all_eq_true]; intro s hs
+      exact eqb_of_eq _ _ (h.cells o ho s hs)
+    rw [this]; rfl
+  · have h1 : eo.all (fun o => eqb (r.mdOf? .obs o) (t.mdOf? .obs o)) = true := by
+      rw [List.all_eq_true]; intro o ho; exact eqb_of_eq _ _ (h.omd o ho)
+    have h2 : es.all (fun s => eqb (r.mdOf? .samp s) (t.mdOf? .samp s)) = true := by
+      rw [List.all_eq_true]; intro s hs; exact eqb_of_eq _ _ (h.smd s hs)
+    rw [h1, h2, eqb_of_eq _ _ h.omdPresent, eqb_of_eq _ _ h.smdPresent]; rfl
+  · rw [eqb_of_eq _ _ h.ttype]; rfl
+
+/-- **model_holds** (`remove_empty` along one axis) -/
+theorem model_holds_removeEmpty [Zero α] [DecidableEq α] (t : Table α) (hwf : t.WF) (ax : Axis)
+    (hn : (t.ids ax).Nodup) (layoutOf : Table α → Axis → CS α) (hl : LayoutOf t ax (layoutOf t ax))
+    (inplace : Bool) :
+    holdsRemoveEmpty t (.one ax) inplace (modelCallObs t (removeEmpty t layoutOf (.one ax)) inplace) = true := by
+  unfold holdsRemoveEmpty
+  rw [Option.isNone_iff_eq_none]
+  simp only [removeEmpty, removeEmpty_exact t hwf ax hn (layoutOf t ax) hl, modelCallObs, verdictRemoveEmpty]
+  have hb := blockSpec_filterAxis t hwf ax hn (nonEmptyId t ax)
+  cases ax with
+  | obs =>
+    simp only [REAxis.touches, if_true, Bool.false_eq_true, if_false, nonEmptyIds_eq t hwf .obs hn _ hl]
+    exact blockVerdict_none t _ _ _ hb _ _ _ _ _ _ _ _ (eqb_self _)
+  | samp =>
+    simp only [REAxis.touches, if_true, Bool.false_eq_true, if_false, nonEmptyIds_eq t hwf .samp hn _ hl]
+    exact blockVerdict_none t _ _ _ hb _ _ _ _ _ _ _ _ (eqb_self _)
+
+/-- `t` restricted to its leading `k` observations -/
+def obsBlock (t : Table α) (k : Nat) : Table α :=
+  { t with obs := t.obs.take k, rows := t.rows.take k, omd := t.omd.map (·.take k) }
+
+theorem takeMask_of_ids (ids : List Id) (hn : ids.Nodup) (k : Nat) :
+    ids.map (fun id => (ids.take k).contains id ^^ false) = takeMask k ids.length := by
+  have := contains_filterMask_self ids hn (takeMask k ids.length) (takeMask_length _ _)
+  rw [filterMask_takeMask] at this
+  simpa using this
+
+theorem filterAxis_takeMask_obs (t : Table α) (hwf : t.WF) (k : Nat) :
+    filterAxis t (takeMask k t.obs.length) .obs = obsBlock t k := by
+  obtain ⟨h1, _, h3, _⟩ := hwf
+  simp only [filterAxis, obsBlock, filterMask_takeMask]
+  congr 1
+  · rw [← h1, filterMask_takeMask]
+  · cases hm : t.omd with
+    | none => rfl
+    | some m => simp only [Option.map_some]; rw [← h3 m hm, filterMask_takeMask]
+
+theorem filterAxis_takeMask_samp (t : Table α) (hwf : t.WF) (k : Nat) :
+    filterAxis t (takeMask k t.samp.length) .samp =
+      { t with samp := t.samp.take k, rows := t.rows.map (·.take k), smd := t.smd.map (·.take k) } := by
+  obtain ⟨_, h2, _, h4⟩ := hwf
+  simp only [filterAxis, filterMask_takeMask]
+  congr 1
+  · apply List.map_congr_left
+    intro r hr
+    rw [← h2 r hr, filterMask_takeMask]
+  · cases hm : t.smd with
+    | none => rfl
+    | some m => simp only [Option.map_some]; rw [← h4 m hm, filterMask_takeMask]
+
+theorem obsBlock_wf (t : Table α) (hwf : t.WF) (k : Nat) : (obsBlock t k).WF := by
+  rw [← filterAxis_takeMask_obs t hwf k]
+  exact filterAxis_wf t hwf _ .obs (takeMask_length _ _)
+
+/-- the two filter calls of `head`, for positive sizes -/
+theorem head_eq [Zero α] (t : Table α) (hwf : t.WF) (hno : t.obs.Nodup) (hns : t.samp.Nodup)
+    (lo : CS α) (ls : Table α → CS α) (n m : Int) (hn : 0 < n) (hm : 0 < m)
+    (hlo : LayoutOf t .obs lo) (hls : LayoutOf (obsBlock t n.toNat) .samp (ls (obsBlock t n.toNat))) :
+    head t lo ls n m = .ok (filterAxis (obsBlock t n.toNat) (takeMask m.toNat t.samp.length) .samp) := by
+  have hall1 : (t.obs.take n.toNat).all (fun k => (t.ids .obs).contains k) = true := by
+    rw [List.all_eq_true]; intro id hid; simpa [Table.ids] using List.mem_of_mem_take hid
+  have hall2 : (t.samp.take m.toNat).all (fun k => ((obsBlock t n.toNat).ids .samp).contains k) = true := by
+    rw [List.all_eq_true]; intro id hid; simpa [obsBlock, Table.ids] using List.mem_of_mem_take hid
+  have hwf1 := obsBlock_wf t hwf n.toNat
+  unfold head
+  rw [if_neg (by omega), filter_ids_path t hwf .obs hno lo hlo, if_pos hall1]
+  simp only [Table.ids]
+  rw [takeMask_of_ids t.obs hno, filterAxis_takeMask_obs t hwf]
+  rw [filter_ids_path (obsBlock t n.toNat) hwf1 .samp hns _ hls, if_pos hall2]
+  simp only [Table.ids]
+  rw [show (obsBlock t n.toNat).samp = t.samp from rfl, takeMask_of_ids t.samp hns]
+
+/-- **head_block**: `head(n, m)` returns exactly the leading `n × m` block — IDs, cells, metadata, type -/
+theorem head_block [Zero α] (t : Table α) (hwf : t.WF) (hno : t.obs.Nodup) (hns : t.samp.Nodup)
+    (lo : CS α) (ls : Table α → CS α) (n m : Int) (hn : 0 < n) (hm : 0 < m)
+    (hlo : LayoutOf t .obs lo) (hls : LayoutOf (obsBlock t n.toNat) .samp (ls (obsBlock t n.toNat))) :
+    head t lo ls n m = .ok
+      { obs := t.obs.take n.toNat, samp := t.samp.take m.toNat,
+        rows := (t.rows.take n.toNat).map (·.take m.toNat),
+        omd := t.omd.map (·.take n.toNat), smd := t.smd.map (·.take m.toNat), ttype := t.ttype } := by
+  rw [head_eq t hwf hno hns lo ls n m hn hm hlo hls]
+  have := filterAxis_takeMask_samp (obsBlock t n.toNat) (obsBlock_wf t hwf n.toNat) m.toNat
+  rw [show (obsBlock t n.toNat).samp = t.samp from rfl] at this
+  rw [this]
+  rfl
+
+/-- non-positive sizes are refused before anything is looked at -/
+theorem head_refuses [Zero α] (t : Table α) (lo : CS α) (ls : Table α → CS α) (n m : Int) (h : n ≤ 0 ∨ m ≤ 0) :
+    head t lo ls n m = .error .index := by
+  unfold head; rw [if_pos h]
+
+/-- **model_holds** (`head`) -/
+theorem model_holds_head [Zero α] [DecidableEq α] (t : Table α) (hwf : t.WF) (hno : t.obs.Nodup)
+    (hns : t.samp.Nodup) (lo : CS α) (ls : Table α → CS α) (n m : Int)
+    (hlo : LayoutOf t .obs lo) (hls : LayoutOf (obsBlock t n.toNat) .samp (ls (obsBlock t n.toNat))) :
+    holdsHead t n m (modelCallObs t (head t lo ls n m) false) = true := by
+  unfold holdsHead
+  rw [Option.isNone_iff_eq_none]
+  by_cases h : n ≤ 0 ∨ m ≤ 0
+  · simp only [verdictHead, h, if_true, head_refuses t lo ls n m h, modelCallObs, errOf, Option.isSome_some,
+      eqb_self]
+    rfl
+  · have hn : 0 < n := by omega
+    have hm : 0 < m := by omega
+    simp only [verdictHead, h, if_false, head_eq t hwf hno hns lo ls n m hn hm hlo hls, modelCallObs]
+    have hwf1 := obsBlock_wf t hwf n.toNat
+    have b1 := blockSpec_filterAxis t hwf .obs hno (fun id => (t.obs.take n.toNat).contains id ^^ false)
+    have b2 := blockSpec_filterAxis (obsBlock t n.toNat) hwf1 .samp hns
+      (fun id => (t.samp.take m.toNat).contains id ^^ false)
+    simp only [Table.ids] at b1 b2
+    rw [takeMask_of_ids t.obs hno, filterAxis_takeMask_obs t hwf] at b1
+    rw [show (obsBlock t n.toNat).samp = t.samp from rfl, takeMask_of_ids t.samp hns] at b2
+    have e1 : t.obs.filter (fun id => (t.obs.take n.toNat).contains id ^^ false) = t.obs.take n.toNat := by
+      rw [← filterMask_map_self, takeMask_of_ids t.obs hno, filterMask_takeMask]
+    have e2 : t.samp.filter (fun id => (t.samp.take m.toNat).contains id ^^ false) = t.samp.take m.toNat := by
+      rw [← filterMask_map_self, takeMask_of_ids t.samp hns, filterMask_takeMask]
+    rw [e1] at b1
+    rw [e2, show (obsBlock t n.toNat).obs = t.obs.take n.toNat from rfl] at b2
+    have b := blockSpec_trans t _ _ _ _ _ b1 b2 (fun s hs => List.mem_of_mem_take hs)
+    exact blockVerdict_none t _ _ _ b _ _ _ _ _ _ _ _ (eqb_self _)
+
+/-! ## Non-vacuity: a concrete receiver whose layout is UNSORTED and holds a stored zero -/
+
+namespace Example
+
+deriving instance DecidableEq for Except
+
+def t0 : Table Int :=
+  { obs := ["o1", "o2", "o3"], samp := ["s1", "s2", "s3"], rows := [[1, 2, 3], [0, 1, 0], [4, 0, 5]],
+    omd := some [[("grp", "a")], [("grp", "b")], [("grp", "a")]], smd := none, ttype := some "OTU table" }
+
+/-- CSR after `sort_order(['s3','s1','s2'])`-like history: indices out of order, `(o2,s1)` stored as 0 -/
+def rowLayout : CS Int := ofSlices 3 [[(2, 3), (0, 1), (1, 2)], [(1, 1), (0, 0)], [(2, 5), (0, 4)]]
+/-- CSC of the same content, also out of order -/
+def colLayout : CS Int := ofSlices 3 [[(2, 4), (0, 1)], [(1, 1), (0, 2)], [(2, 5), (0, 3)]]
+
+theorem t0_wf : t0.WF :=
+  ⟨rfl, by decide, fun m h => by cases h; rfl, fun m h => by cases h⟩
+
+theorem rowLayout_of : LayoutOf t0 .obs rowLayout where
+  wf := wf_ofSlices _ _ (by decide) (by decide)
+  nMajor := rfl
+  nMinor := rfl
+  dense := by decide
+
+theorem colLayout_of : LayoutOf t0 .samp colLayout where
+  wf := wf_ofSlices _ _ (by decide) (by decide)
+  nMajor := rfl
+  nMinor := rfl
+  dense := by decide
+
+/-- the layout really is unsorted, so the kernel alone would hand out wrong vectors… -/
+example : ¬ rowLayout.SortedIndices := by
+  intro h
+  have := h 0 (by decide)
+  revert this
+  decide
+
+example : (genMask (fun v _ _ => v.head? == some 1) false rowLayout 0 t0.obs [none, none, none] [0, 0, 0]).map (·.2.map (·.vec)) =
+    .ok [[0, 0, 3], [0, 1, 3], [0, 0, 5]] := by decide   -- the 3 in the second vector is the stale buffer
+
+/-- …and `Table.filter` (sort, then kernel) hands out the true ones and keeps exactly `o1` -/
+example : (tableFilter t0 rowLayout .obs (.pred (fun v _ _ => v.head? == some 1)) false) =
+    .ok ({ t0 with obs := ["o1"], rows := [[1, 2, 3]], omd := some [[("grp", "a")]] },
+         [⟨[1, 2, 3], "o1", some [("grp", "a")]⟩, ⟨[0, 1, 0], "o2", some [("grp", "b")]⟩,
+          ⟨[4, 0, 5], "o3", some [("grp", "a")]⟩]) := by rfl
+
+example : (tableFilter t0 colLayout .samp (.ids ["s3", "s1"]) true).map (·.1) =
+    .ok { t0 with samp := ["s2"], rows := [[2], [1], [0]] } := by rfl
+
+/-- the general theorems apply to it -/
+example (p : Pred Int) (invert inplace : Bool) :
+    holdsFilter t0 .obs (.pred p) invert inplace (modelFilterObs t0 rowLayout .obs (.pred p) invert inplace) = true :=
+  model_holds t0 t0_wf .obs (by decide) rowLayout rowLayout_of _ _ _
+
+example : (filterCall t0 colLayout .samp (.ids ["s1", "zz"]) false true).result = .error .key ∧
+    (filterCall t0 colLayout .samp (.ids ["s1", "zz"]) false true).after = t0 :=
+  unknown_id_unchanged t0 t0_wf .samp (by decide) colLayout colLayout_of _ _ _ "zz" (by decide) (by decide)
+
+/-- `remove_empty` keeps a zero-sum vector and a negative one, drops only the all-zero one -/
+def t1 : Table Int :=
+  { obs := ["a", "b", "c"], samp := ["x", "y", "z"], rows := [[-1, 0, 1], [0, 0, 0], [-3, 0, 0]] }
+
+def t1Layout : CS Int := ofSlices 3 [[(2, 1), (0, -1)], [(1, 0)], [(0, -3)]]
+
+theorem t1_layout_of : LayoutOf t1 .obs t1Layout where
+  wf := wf_ofSlices _ _ (by decide) (by decide)
+  nMajor := rfl
+  nMinor := rfl
+  dense := by decide
+
+theorem t1_wf : t1.WF := by
+  refine ⟨rfl, by decide, ?_, ?_⟩ <;> intro m h <;> cases h
+
+example : removeEmptyAxis t1 t1Layout .obs = .ok { t1 with obs := ["a", "c"], rows := [[-1, 0, 1], [-3, 0, 0]] } := by
+  rw [removeEmpty_exact t1 t1_wf .obs (by decide) t1Layout t1_layout_of]
+  rfl
+
+example : removeRows rowLayout [true, false, true] =
+    .ok { nMajor := 2, nMinor := 3, indptr := [0, 3, 5], indices := [2, 0, 1, 2, 0], data := [3, 1, 2, 5, 4] } := by
+  rfl
+
+end Example
+
 end Biom.C08
